@@ -91,7 +91,8 @@ def c10Step (st : C10State) (req : List Sx) : C10State × String :=
         | none =>
           let v := validateB { out.ren with resource := resourceMap P R } P R e out.entry
           let why := if v then "" else s!" failing={(firstFailing (checks { out.ren with resource := resourceMap P R } P R e out.entry)).getD "?"}"
-          (st, s!"equal entry={out.entry} validate={v}{why}")
+          let kd := distinctB (out.ren.type.map (·.1)) && distinctB (out.ren.tuple.map (·.1))
+          (st, s!"equal entry={out.entry} validate={v}{why} keys-distinct={kd}")
     | _, _, _, _ => (st, "bad-request")
   | [.list [.atom "shake", ea]] =>
     -- `treeShake A e` compared with slot B (the real `tree_shake(A, e)`), field by field, and the
